@@ -74,9 +74,9 @@ impl ross_protocol::interface::can::verif_sim::Instance for CanDev {
 
 // ---------- serial port (serialport::SerialPort + std::io) ----------
 // rx tokens: 0..=255 byte, 256 TimedOut, 257 other io error, 258 Interrupted.
-// write answers: n < 0x1000 accept up to n bytes (0 = Ok(0)), 0x1000 Interrupted, 0x1001 io error, 0x1002 TimedOut error; exhausted = accept everything.
+// write answers: n < 0x1000 accept up to n bytes (0 = Ok(0)), 0x1000 Interrupted, 0x1001 io error, 0x1002 TimedOut error, 0x1003 WouldBlock error, 0x1004 WriteZero error; exhausted = accept everything.
 #[derive(Default)]
-pub struct SerSt { pub rx: VecDeque<u16>, pub ans: VecDeque<u32>, pub flush_ok: bool, pub tx: Vec<u8>, pub spins: u32, pub max_read: usize }
+pub struct SerSt { pub rx: VecDeque<u16>, pub ans: VecDeque<u32>, pub flush_ok: bool, pub flush_kind: u64, pub tx: Vec<u8>, pub spins: u32, pub max_read: usize }
 #[derive(Clone)]
 pub struct SerDev(pub Arc<Mutex<SerSt>>);
 impl std::io::Read for SerDev {
@@ -107,12 +107,17 @@ impl std::io::Write for SerDev {
             Some(0x1000) => Err(std::io::Error::new(std::io::ErrorKind::Interrupted, "interrupted")),
             Some(n) if n < 0x1000 => { let k = buf.len().min(n as usize); s.tx.extend_from_slice(&buf[..k]); Ok(k) }
             Some(0x1002) => Err(std::io::Error::new(std::io::ErrorKind::TimedOut, "write timed out")),
+            Some(0x1003) => Err(std::io::Error::new(std::io::ErrorKind::WouldBlock, "write would block")),
+            Some(0x1004) => Err(std::io::Error::new(std::io::ErrorKind::WriteZero, "write zero")),
             Some(_) => Err(std::io::Error::new(std::io::ErrorKind::Other, "io error")),
         }
     }
     fn flush(&mut self) -> std::io::Result<()> {
         let s = self.0.lock().unwrap();
-        if s.flush_ok { Ok(()) } else { Err(std::io::Error::new(std::io::ErrorKind::BrokenPipe, "flush failed")) }
+        if s.flush_ok { return Ok(()); }
+        use std::io::ErrorKind::*;
+        let kind = match s.flush_kind { 2 => TimedOut, 3 => Interrupted, 4 => WouldBlock, 5 => Other, 6 => WriteZero, _ => BrokenPipe };
+        Err(std::io::Error::new(kind, "flush failed"))
     }
 }
 use serialport::*;
